@@ -96,7 +96,7 @@ Construct(L, keep, batch, weighted) ==
     /\ Live
     /\ h = Null
     /\ weighted \/ AllOnes(batch)
-    /\ h' = [DepositAll(Empty(L, keep), batch) EXCEPT !.med = ~weighted /\ Len(batch) > 0,
+    /\ h' = [DepositAll(Empty(L, keep), batch) EXCEPT !.med = ~weighted /\ (\E i \in 1..Len(batch) : batch[i][1] # NaN),
                                                        !.weighted = weighted]
     /\ ghost' = GOfSeq(batch)
 
